@@ -1697,11 +1697,8 @@ func ExecSelect(query *Query, current []any) ([]any, error) {
 		switch current := current.(type) {
 		case []any:
 			{
-				rs, err := ExecSelect(query, current)
-				if err != nil {
-					return nil, err
-				}
-				copy = append(copy, rs)
+				// inner arrays have already been projected by their own exec
+				copy = append(copy, current)
 			}
 		case Map:
 			{
